@@ -1,0 +1,167 @@
+//go:build verif
+
+// Contracts for the quadratic / quartic extensions of this small field (comment-only; installed by /verif/gcv
+// gen-contracts). Layer "ring T": values of type T are elements of an abstract commutative ring; the methods of T
+// are interpreted by the ring operation their own (lower-layer) contract states.
+//   E2 = F[u]/(u^2 - 11)          E4 = E2[v]/(v^2 - u)
+// qmul(nr, a, b) is the schoolbook product of coordinate vectors reduced by X^k = nr, computed by the tool.
+
+package extensions
+
+// ---------------- E2 over F ----------------
+
+//@ func E2.Add
+//@ layer ring babybear.Element
+//@ ensures[value] vec(z) == vadd(old(vec(x)), old(vec(y)))
+//@ ensures[result] result == z
+//@ modifies z
+//@ end
+
+//@ func E2.Sub
+//@ layer ring babybear.Element
+//@ ensures[value] vec(z) == vsub(old(vec(x)), old(vec(y)))
+//@ ensures[result] result == z
+//@ modifies z
+//@ end
+
+//@ func E2.Double
+//@ layer ring babybear.Element
+//@ ensures[value] vec(z) == vscale(2, old(vec(x)))
+//@ ensures[result] result == z
+//@ modifies z
+//@ end
+
+//@ func E2.Neg
+//@ layer ring babybear.Element
+//@ ensures[value] vec(z) == vscale(-1, old(vec(x)))
+//@ ensures[result] result == z
+//@ modifies z
+//@ end
+
+//@ func E2.Conjugate
+//@ layer ring babybear.Element
+//@ ensures[value] vec(z) == vconj2(old(vec(x)))
+//@ ensures[result] result == z
+//@ modifies z
+//@ end
+
+//@ func E2.MulByElement
+//@ layer ring babybear.Element
+//@ ensures[value] vec(z) == vscale(old(*y), old(vec(x)))
+//@ ensures[result] result == z
+//@ modifies z
+//@ end
+
+//@ func E2.Mul
+//@ layer ring babybear.Element
+//@ ensures[value] vec(z) == qmul(11, old(vec(x)), old(vec(y)))
+//@ ensures[result] result == z
+//@ modifies z
+//@ end
+
+//@ func E2.Square
+//@ layer ring babybear.Element
+//@ ensures[value] vec(z) == qsq(11, old(vec(x)))
+//@ ensures[result] result == z
+//@ modifies z
+//@ end
+
+//@ func E2.MulByNonResidue
+//@ layer ring babybear.Element
+//@ ensures[value] vec(z) == qmul(11, svec(2, 1, 1), old(vec(x)))
+//@ ensures[result] result == z
+//@ modifies z
+//@ end
+
+//@ func E2.Inverse
+//@ layer ring babybear.Element
+//@ option distribute
+//@ ensures[inverse] qmul(11, vec(z), old(vec(x))) == svec(2, 0, qnorm(11, old(vec(x))) * inv(qnorm(11, old(vec(x)))))
+//@ ensures[result] result == z
+//@ modifies z
+//@ end
+
+//@ func E2.norm
+//@ layer ring babybear.Element
+//@ ensures[value] *x == qnorm(11, vec(z))
+//@ modifies x
+//@ end
+
+// ---------------- E4 over E2 ----------------
+
+//@ func E4.Add
+//@ layer ring E2
+//@ ensures[value] vec(z) == vadd(old(vec(x)), old(vec(y)))
+//@ ensures[result] result == z
+//@ modifies z
+//@ end
+
+//@ func E4.Sub
+//@ layer ring E2
+//@ ensures[value] vec(z) == vsub(old(vec(x)), old(vec(y)))
+//@ ensures[result] result == z
+//@ modifies z
+//@ end
+
+//@ func E4.Double
+//@ layer ring E2
+//@ ensures[value] vec(z) == vscale(2, old(vec(x)))
+//@ ensures[result] result == z
+//@ modifies z
+//@ end
+
+//@ func E4.Neg
+//@ layer ring E2
+//@ ensures[value] vec(z) == vscale(-1, old(vec(x)))
+//@ ensures[result] result == z
+//@ modifies z
+//@ end
+
+//@ func E4.Conjugate
+//@ layer ring E2
+//@ ensures[value] vec(z) == vconj2(old(vec(x)))
+//@ ensures[result] result == z
+//@ modifies z
+//@ end
+
+//@ func E4.MulByE2
+//@ layer ring E2
+//@ ensures[value] vec(z) == vscale(old(*y), old(vec(x)))
+//@ ensures[result] result == z
+//@ modifies z
+//@ end
+
+//@ func E4.Mul
+//@ layer ring E2
+//@ ensures[value] vec(z) == qmul(NR_E2, old(vec(x)), old(vec(y)))
+//@ ensures[result] result == z
+//@ modifies z
+//@ end
+
+//@ func E4.Square
+//@ layer ring E2
+//@ ensures[value] vec(z) == qsq(NR_E2, old(vec(x)))
+//@ ensures[result] result == z
+//@ modifies z
+//@ end
+
+//@ func E4.MulByNonResidue
+//@ layer ring E2
+//@ ensures[value] vec(z) == qmul(NR_E2, svec(2, 1, 1), old(vec(x)))
+//@ ensures[result] result == z
+//@ modifies z
+//@ end
+
+//@ func E4.Inverse
+//@ layer ring E2
+//@ option distribute
+//@ ensures[inverse] qmul(NR_E2, vec(z), old(vec(x))) == svec(2, 0, qnorm(NR_E2, old(vec(x))) * inv(qnorm(NR_E2, old(vec(x)))))
+//@ ensures[result] result == z
+//@ modifies z
+//@ end
+
+//@ func E4.norm
+//@ layer ring E2
+//@ ensures[value] *x == qnorm(NR_E2, vec(z))
+//@ modifies x
+//@ end
